@@ -3,6 +3,8 @@ package c09
 import (
 	"bytes"
 	"fmt"
+	"os"
+	"regexp"
 	"testing"
 	"time"
 
@@ -54,8 +56,24 @@ func fillCases(t *rapid.T, service string) []connCase {
 			}
 		}
 	}
+	// announced lengths and counts: every decimal number of the dialogue (the first four)
+	// inflated to the sizes a client can announce and then not deliver
+	var stream []byte
+	for _, u := range units {
+		stream = append(stream, u...)
+	}
+	locs := asciiNumber.FindAllIndex(stream, 4)
+	for k, l := range locs {
+		for _, v := range []string{"65536", "1048576", "2147483647", "4294967296", "9223372036854775807"} {
+			m := append(append(append([]byte(nil), stream[:l[0]]...), v...), stream[l[1]:]...)
+			out = append(out, connCase{Service: service, Units: hexUnits([][]byte{m}), Seg: "single", End: "close", Kind: "buffer-fill",
+				Note: fmt.Sprintf("number %d of the dialogue announced as %s", k, v)})
+		}
+	}
 	return out
 }
+
+var asciiNumber = regexp.MustCompile(`[0-9]+`)
 
 // fillBatch plays the cases concurrently on a fresh child and says whether anything is
 // left afterwards (open connections, goroutines, CPU).
@@ -78,20 +96,29 @@ func fillBatch(cases []connCase) (suspicious bool, err error) {
 	for _, cc := range cases {
 		req.Scripts = append(req.Scripts, cc.wire())
 	}
+	dbg := func(why string) {
+		if os.Getenv("C09_DEBUG") != "" {
+			fmt.Fprintf(os.Stderr, "FILLBATCH %s suspicious: %s\n", cases[0].Service, why)
+		}
+	}
 	resp, e := c.Do(req, 75*time.Second)
 	if e != nil {
+		dbg("run: " + head(e.Error(), 300))
 		return true, nil // died or hung: which case it was is found by the single runs
 	}
-	for _, cr := range resp.Conns {
+	for i, cr := range resp.Conns {
 		if !cr.Closed {
+			dbg("not closed: " + cases[i].Note)
 			return true, nil
 		}
 	}
 	b, e := settle(c, a, true)
 	if e != nil {
+		dbg("settle: " + head(e.Error(), 300))
 		return true, nil
 	}
 	if excess(a, b) > 0 {
+		dbg("excess: " + above(a, b))
 		return true, nil
 	}
 	u0, e0 := measure(c)
@@ -108,7 +135,7 @@ func TestBufferFill(t *testing.T) {
 	if vlib.Replaying() {
 		return // reported and replayed as TestRelease cases
 	}
-	r.Rule("buffer-fill sweep: per TCP service, {no lead, ESC, ESC[, IAC SB, quote, <} x 10 fill bytes x run lengths {255, 256, 257, 1024, 4097, 65536} inserted as a unit of its own at the start and before one drawn unit of a generated dialogue; all cases of one (service, position) run concurrently on a fresh child; a batch that leaves open connections, goroutines in honeytrap frames or a busy process is bisected and every remaining suspect is judged alone by TestRelease's oracle; services are spread over the shards; distinct by script")
+	r.Rule("buffer-fill sweep: per TCP service, {no lead, ESC, ESC[, IAC SB, quote, <} x 10 fill bytes x run lengths {255, 256, 257, 1024, 4097, 65536} inserted as a unit of its own at the start and before one drawn unit of a generated dialogue; plus every decimal number of the dialogue (first four) announced as 2^16, 2^20, 2^31-1, 2^32, 2^63-1 and the client leaving; all cases of one service run concurrently on a fresh child; a batch that leaves open connections, goroutines in honeytrap frames or a busy process is bisected and every remaining suspect is judged alone by TestRelease's oracle; services are spread over the shards; distinct by script")
 	shard, shards := r.Shard()
 	for i, service := range svc.AllServices {
 		if i%shards != shard || !svc.PortOf(service).TCP {
